@@ -167,10 +167,16 @@ theorem min_max_by_less (xs : List Rep) :
   refine ⟨?_, ?_, ?_⟩
   · intro m hm
     obtain ⟨h1, h2, _⟩ := maxLoop_spec xs none m hm
-    exact ⟨by rcases h1 with h | h; exact h; cases h, h2⟩
+    refine ⟨?_, h2⟩
+    rcases h1 with h | h
+    · exact h
+    · cases h
   · intro m hm
     obtain ⟨h1, h2, _⟩ := minLoop_spec xs none m hm
-    exact ⟨by rcases h1 with h | h; exact h; cases h, h2⟩
+    refine ⟨?_, h2⟩
+    rcases h1 with h | h
+    · exact h
+    · cases h
   · intro hne
     cases xs with
     | nil => exact absurd rfl hne
@@ -223,6 +229,23 @@ theorem trichotomy_false_before_repair_array_holes :
     Old.less (.array [some (.num 1), none, some (.num 3)] 0) (.array [some (.num 1), none, some (.num 2)] 0) = false ∧
     equal (.array [some (.num 1), none, some (.num 2)] 0) (.array [some (.num 1), none, some (.num 3)] 0) = false := by
   decide
+
+/-- `{|b| (1)}` vs `{|a,b| (1,2)}`: each was less than the other — headings were tested in one direction only
+(`Relation.Less`) -/
+theorem trichotomy_false_before_repair_relation :
+    Old.less (.relation ["b"] [[.num 1]]) (.relation ["a", "b"] [[.num 1, .num 2]]) = true ∧
+    Old.less (.relation ["a", "b"] [[.num 1, .num 2]]) (.relation ["b"] [[.num 1]]) = true := by decide
+
+/-- the repaired rules order the same witnesses -/
+theorem witnesses_ordered_after_repair :
+    less .empty (.gtuple []) = true ∧ less .true_ (.gtuple []) = true ∧
+    less (.str [97, 98, 99] 0) (.str [97, 98, 99] 1) = true ∧
+    less (.str [97, -1, 98] 0) (.str [97, 65533, 98] 0) = true ∧
+    less (.array [some (.num 1), none, some (.num 2)] 0) (.array [some (.num 1), none, some (.num 3)] 0) = true ∧
+    less (.bytes [1] 0) (.bytes [2] 0) = true ∧
+    less (.num 3) (.gtuple [("@neg", .gtuple [("@neg", .num 1)])]) = true ∧
+    less (.relation ["b"] [[.num 1]]) (.relation ["a", "b"] [[.num 1, .num 2]]) = true ∧
+    less (.relation ["a", "b"] [[.num 1, .num 2]]) (.relation ["b"] [[.num 1]]) = false := by decide
 
 /-- `<<1>> < <<2>>` panicked (`Bytes.Less` asserted `*Bytes`) -/
 theorem old_bytes_less_panics : Old.panics (.bytes [1] 0) (.bytes [2] 0) = true := by decide
